@@ -38,6 +38,28 @@ def slotSpanOk (minSlot maxSlot slot span : UInt64) : Bool :=
   | .ok _ => true
   | _ => false
 
+/-- `CheckAttestationSlot(spec, backend.SlotAfter, slot) == nil`: the 32-slot range before `DENEB_FORK_EPOCH`
+(decided by the epoch of the clock at +disparity), the EIP-7045 rule from then on -/
+def attSlotOk (spe denebEpoch minSlot maxSlot slot : UInt64) : Bool :=
+  if epochOf spe maxSlot < denebEpoch then slotSpanOk minSlot maxSlot slot ATTESTATION_PROPAGATION_SLOT_RANGE
+  else if slot > maxSlot then false
+  else
+    let e := epochOf spe slot
+    let c1 := epochOf spe minSlot
+    let c2 := epochOf spe maxSlot
+    (e == c1 || (c1 != 0 && e == c1 - 1)) || (e == c2 || (c2 != 0 && e == c2 - 1))
+
+/-- `checkpointBlockRoot(chain, root, ref, targetSlot, maxSteps)`: walk the parent links from the voted block until
+an entry at or before `targetSlot`. `ancs` are the successive parents `(root, slot)` the chain view can resolve; a
+lookup beyond the list fails. `none` = `ok == false`. `fuel` = `maxSteps`. -/
+def checkpointWalk (targetSlot : UInt64) : Nat → UInt64 → UInt64 → List (UInt64 × UInt64) → Option UInt64
+  | fuel, root, slot, ancs =>
+    if !(slot > targetSlot) then some root
+    else match fuel, ancs with
+      | 0, _ => none
+      | _, [] => none
+      | f + 1, (r, s) :: rest => checkpointWalk targetSlot f r s rest
+
 /-- `binary.LittleEndian.Uint64(b[:8])` -/
 def le64 (b : ByteArray) : UInt64 :=
   (List.range 8).foldr (fun i acc => acc * 256 + (b.get! i).toUInt64) 0
@@ -171,8 +193,13 @@ structure AttIn where
   blockSlot : UInt64
   /-- `InSubtree(target.root, beacon_block_root)` -/
   targetSub : Tri
-  /-- spec only: `get_checkpoint_block(store, beacon_block_root, target.epoch) == target.root` -/
-  targetIsCkpt : Bool
+  /-- symbolic names of `beacon_block_root` and `target.root` -/
+  blockRoot : UInt64
+  targetRoot : UInt64
+  /-- the successive parents `(root, slot)` of the voted block that the chain view resolves (`ByBlock` + `ParentRoot`) -/
+  ancestors : List (UInt64 × UInt64)
+  /-- `DENEB_FORK_EPOCH` of the node's spec -/
+  denebEpoch : UInt64
   finSub : Tri
   finEpoch : UInt64
   towards : Bool
@@ -200,8 +227,8 @@ def finCheck (blockIsFin : Bool) (finSub : Tri) (finEpoch targetEpoch : UInt64) 
 
 def validateAttestation (i : AttIn) : Out :=
   match EpochStartSlot (specOf i.spe) i.targetEpoch with
-  | .ok _ =>
-    if !slotSpanOk i.minSlot i.maxSlot i.slot ATTESTATION_PROPAGATION_SLOT_RANGE then ign
+  | .ok targetSlot =>
+    if !attSlotOk i.spe i.denebEpoch i.minSlot i.maxSlot i.slot then ign
     else if i.targetEpoch != epochOf i.spe i.slot then rej
     else if i.setBits.length != 1 then rej
     else if i.bad then rej
@@ -211,6 +238,11 @@ def validateAttestation (i : AttIn) : Out :=
       | .unk => ign
       | .no => rej
       | .yes =>
+        match checkpointWalk targetSlot i.spe.toNat i.blockRoot i.blockSlot i.ancestors with
+        | none => ign
+        | some ckpt =>
+        if ckpt != i.targetRoot then rej
+        else
         match finCheck i.blockIsFin i.finSub i.finEpoch i.targetEpoch [] with
         | some o => o
         | none =>
@@ -253,12 +285,15 @@ structure AggIn where
   /-- `hash_tree_root(aggregate)` (hex), the de-duplication key -/
   aggRoot : String
   bad : Bool
-  /-- spec only: the block voted for is in the chain view -/
+  /-- `ByBlock(beacon_block_root)` found an entry -/
   blockKnown : Bool
+  blockSlot : UInt64
   /-- `InSubtree(target.root, beacon_block_root)` -/
   targetSub : Tri
-  /-- spec only -/
-  targetIsCkpt : Bool
+  blockRoot : UInt64
+  targetRoot : UInt64
+  ancestors : List (UInt64 × UInt64)
+  denebEpoch : UInt64
   finSub : Tri
   finEpoch : UInt64
   towards : Bool
@@ -300,7 +335,7 @@ def participants (committee : List UInt64) (setBits : List Nat) : List UInt64 :=
   setBits.filterMap (fun p => committee[p]?)
 
 def validateAggregate (i : AggIn) : Out :=
-  if !slotSpanOk i.minSlot i.maxSlot i.slot ATTESTATION_PROPAGATION_SLOT_RANGE then ign
+  if !attSlotOk i.spe i.denebEpoch i.minSlot i.maxSlot i.slot then ign
   else if i.targetEpoch != epochOf i.spe i.slot then rej
   else
     let q1 := [call "SeenAggregator" [i.targetEpoch, i.aggregator]]
@@ -310,10 +345,17 @@ def validateAggregate (i : AggIn) : Out :=
       if i.seenAggregate then ign q
       else if i.setBits.length < 1 then rej q
       else if i.bad then rej q
+      else if !i.blockKnown then ign q
+      else if i.blockSlot > i.slot then rej q
       else match i.targetSub with
       | .unk => ign q
       | .no => rej q
       | .yes =>
+      match checkpointWalk (epochStartSlotOr0 i.spe i.targetEpoch) i.spe.toNat i.blockRoot i.blockSlot i.ancestors with
+      | none => ign q
+      | some ckpt =>
+      if ckpt != i.targetRoot then rej q
+      else
       match finCheck i.blockIsFin i.finSub i.finEpoch i.targetEpoch q with
         | some o => o
         | none =>
